@@ -135,3 +135,19 @@ func init() {
 		return TupleV{(*SliceV)(nil), m.newError(smt.StrC("illegal base64 data"), nil)}
 	}
 }
+
+// vwUFBytes(name, n, args...) (harness/lnd, harness/clightning wallet_c08_c03.go): an uninterpreted
+// function of the arguments whose value is a byte string of the fixed length n (serialisations,
+// hashes).  Natively the harness body renders the arguments deterministically; it is only ever
+// used on the symbolic side (inside Override targets).
+func init() {
+	uf := func(m *Machine, fn *ssa.Function, args []Value) Value {
+		name := "h:" + constStr(args[0], "uf name")
+		n := constInt(args[1], "vwUFBytes length")
+		t := m.ufOver(name, smt.Str, variadic(args[2])...)
+		smt.AddAxiom(smt.Eq(smt.StrLen(t), smt.IntC(int64(n))))
+		return m.bytesValue(t, n)
+	}
+	intrinsics[ModPath+"/lnd.vwUFBytes"] = uf
+	intrinsics[ModPath+"/clightning.vwUFBytes"] = uf
+}
